@@ -381,13 +381,61 @@ Section OnceImplProofs.
     destruct (H _ _ E) as [A|(A & B)]; unfold abs_thread; simpl; rewrite A; simpl; auto.
   Qed.
 
-  (* finished runs of the transcription: if anybody called Do, exactly one function was started *)
+  (* finished runs of the transcription: if anybody called Do, exactly one function was started,
+     and it completed exactly once unless it aborted *)
   Theorem impl_finished_exactly_one progs s :
     let c := crun (cinit progs) s in
-    cfinished c -> (exists t f, In (EInv t f) (cc_trace c)) -> length (starts (cc_trace c)) = 1.
+    cfinished c -> (exists t f, In (EInv t f) (cc_trace c)) ->
+    length (starts (cc_trace c)) = 1 /\
+    exists w f, starts (cc_trace c) = [(w, f)] /\ fins (cc_trace c) = (if f_aborts f then [] else [(w, f_res f)]).
   Proof.
     intros c Hfin Hinv. destruct (once_refines progs s) as (s' & E). fold c in E.
     pose proof (finished_exactly_one V zero arity progs s') as H. simpl in H. rewrite <- E in H.
     apply H; [apply cfinished_abs; exact Hfin|exact Hinv].
+  Qed.
+
+  (* ---- lock discipline of the plain field accesses, for the transcription ---- *)
+
+  Lemma cnext_access_abs (c : cconfig V) t a :
+    cnext_access arity c t = Some a -> next_access arity (abs c) t = Some a.
+  Proof.
+    unfold OnceImpl.cnext_access, Once.next_access, abs; simpl. rewrite nth_error_map.
+    destruct (nth_error (cc_threads c) t) as [th|]; [|discriminate]. simpl.
+    destruct (ct_pc th); simpl; auto; discriminate.
+  Qed.
+
+  (* a field is written only by the thread that holds the mutex while done = 0;
+     it is read only in configurations in which done = 1 has been stored *)
+  Theorem impl_access_discipline progs s t a :
+    let c := crun (cinit progs) s in
+    cnext_access arity c t = Some a ->
+    match a with
+    | AWrite i => cc_done c = false /\ cc_mutex c = Some t /\ i < arity
+    | ARead i => cc_done c = true /\ i < arity
+    end.
+  Proof.
+    intros c Ha. destruct (once_refines progs s) as (s' & E). fold c in E.
+    pose proof (access_discipline V zero arity progs s' t a) as H. simpl in H. rewrite <- E in H.
+    specialize (H (cnext_access_abs _ _ _ Ha)). unfold abs in H; simpl in H. unfold once_of in H.
+    destruct a as [i|i]; destruct H as (Ho & Hi).
+    - destruct (cc_done c); [discriminate|]. destruct (cc_mutex c) as [w|]; [|discriminate].
+      destruct (nth_error (cc_threads c) w) as [th|]; [|discriminate].
+      destruct (in_run (ct_pc th)); [|discriminate]. injection Ho as ->. auto.
+    - destruct (cc_done c); [auto|]. destruct (cc_mutex c) as [w|]; [|discriminate].
+      destruct (nth_error (cc_threads c) w) as [th|]; [|discriminate].
+      destruct (in_run (ct_pc th)); discriminate.
+  Qed.
+
+  Theorem impl_no_plain_race progs s t1 t2 a1 a2 :
+    let c := crun (cinit progs) s in
+    t1 <> t2 -> cnext_access arity c t1 = Some a1 -> cnext_access arity c t2 = Some a2 ->
+    exists i j, a1 = ARead i /\ a2 = ARead j.
+  Proof.
+    intros c N H1 H2.
+    pose proof (impl_access_discipline progs s t1 a1 H1) as D1.
+    pose proof (impl_access_discipline progs s t2 a2 H2) as D2. fold c in D1, D2.
+    destruct a1 as [i|i], a2 as [j|j]; try (destruct D1 as (A1 & B1 & _), D2 as (A2 & B2 & _); congruence);
+      try (destruct D1 as (A1 & _), D2 as (A2 & _); congruence).
+    exists i, j. auto.
   Qed.
 End OnceImplProofs.
